@@ -47,7 +47,8 @@ def spec_strategy(draw):
     cap_like = max(1, bound)
     spec['n'] = draw(st.integers(0, min(80, 10 * cap_like)))
     spec['src_delays'] = draw(SPEED)
-    spec['cons_delays'] = draw(st.sampled_from([[0.0], [0.0], [0.01], [0.1], [0.5], [0.0, 0.2]]))
+    # (the last two: a consumer that stalls longer than any internal timeout of the hand-off queues)
+    spec['cons_delays'] = draw(st.sampled_from([[0.0], [0.0], [0.01], [0.1], [0.5], [0.0, 0.2], [3.0], [0.0, 0.0, 2.5]]))
     if spec['unbounded']:
         spec['consume'] = {'kind': 'close', 'at': draw(st.integers(0, 60))}
     else:
@@ -226,6 +227,46 @@ RULE = (
     'Non-trivial: max observed look-ahead within 3 of the bound (attained counted separately); distinct by (stages, n, speeds, consumer, max look-ahead).'
 )
 
+# ------------------------------------------------------------------ F2: real worker processes
+
+
+@st.composite
+def proc_spec(draw):
+    c = draw(st.sampled_from([1, 2, 2, 3]))
+    return {'c': c, 'n': draw(st.integers(6 * c, 10 * c)), 'delay_ms': draw(st.sampled_from([80, 150, 250]))}
+
+
+def run_proc(spec):
+    from vf.realproc import reap_children, run_with_watchdog
+
+    from . import targets
+
+    def case():
+        from mpservice.streamer import Stream
+
+        return list(Stream(range(spec['n'])).parmap(targets.proc_stamp, executor='process', concurrency=spec['c'], delay_ms=spec['delay_ms']))
+
+    try:
+        res = run_with_watchdog(case, budget_s=30, what='parmap(process) concurrency', signature=['hang', 'process_concurrency'])
+    finally:
+        reap_children()
+    if [r[0] for r in res] != list(range(spec['n'])):
+        raise Violation('outputs', f'order/content of results wrong: {[r[0] for r in res]}', signature=['outputs', 'process'])
+    pids = sorted({r[1] for r in res})
+    # invocations running at once: sweep over the (start, end) stamps taken inside the worker processes
+    ev = sorted([(r[2], 1) for r in res] + [(r[3], -1) for r in res], key=lambda t: (t[0], t[1]))
+    cur = peak = 0
+    for _, d in ev:
+        cur += d
+        peak = max(peak, cur)
+    if peak > spec['c'] or len(pids) > spec['c']:
+        raise Violation('concurrency', f"(process executor) {peak} invocations of the worker function ran at once in {len(pids)} worker processes; concurrency={spec['c']}", signature=['concurrency', 'process'])
+    return CaseInfo(nontrivial=peak >= min(2, spec['c']) or spec['c'] == 1, descriptor=spec, classes=('process_executor', f"c{spec['c']}", f'peak{peak}'), sample=dict(spec, peak=peak, workers=len(pids)))
+
+
 FAMILIES = [
     Family('F1_lookahead_concurrency', 'sim', spec_strategy(), run_case, quick=3000, thorough=150_000, shards_quick=8, rule=RULE, setup=_warm),
+    Family('F2_process_executor', 'real', proc_spec(), run_proc, quick=6, thorough=150, shards_quick=4, shards_thorough=8, shrink=False,
+           rule='Stream(range(6c..10c)).parmap(fn, executor="process", concurrency=c in 1-3) with real worker processes; fn sleeps 80-250 ms and returns (pid, start, end) stamps. '
+           'Oracle: results in input order; at no moment more than c stamped intervals overlap and at most c distinct worker pids. Non-trivial: the bound c was reached.'),
 ]
